@@ -236,7 +236,7 @@ def _redecl_one(item):
 SLIPS = ["alias_signal", "alias_instance", "call_returns_same", "rename_signal", "rename_instance", "rename_to_implicit", "stale_slice",
          "width_zero", "width_shrunk_under_slice", "ext_dup_ports", "alias_port", "alias_in_child", "same_name_below",
          "rename_instance_like_signal", "rename_signal_like_instance", "rename_port_like_signal",
-         "bad_edit_after_failure_late", "bad_edit_after_failure_early"]
+         "bad_edit_after_failure_late", "bad_edit_after_failure_early", "ext_revised_then_used", "ext_revised_pin_left_open"]
 
 
 def _slip_one(kind):
@@ -341,6 +341,21 @@ def _slip_one(kind):
             top = h.Module(name="STop2")
             top.a, top.b = h.Signal(), h.Signal()
             top.s = sub(p=top.a, q=top.b)
+        elif kind.startswith("ext_revised"):
+            # a macro (ExternalModule) is used and exported, then revised - a supply pin is added to its port list, a port is
+            # widened - and used again in another design
+            mac = h.ExternalModule(name="SMacro", port_list=[h.Input(name="a"), h.Output(name="z", width=2)], paramtype=dict, domain="hv")
+            m.t = h.Signal(width=2)
+            m.mc = mac()(a=m.x, z=m.t)
+            _ = (mac.ports, h.to_proto(m))
+            mac.port_list.append(h.Port(name="vdd"))
+            mac.port_list[1].width = 4
+            top = h.Module(name="SlipTop2")
+            top.x, top.vdd, top.t4 = h.Signal(), h.Signal(), h.Signal(width=4)
+            if kind == "ext_revised_then_used":
+                top.mc = mac()(a=top.x, z=top.t4, vdd=top.vdd)  # valid against the revision
+            else:
+                top.mc = mac()(a=top.x, z=top.t4)  # the new pin left open: to be refused
         elif kind == "alias_in_child":
             c = h.Module(name="SChild")
             c.p, c.q = h.Input(), h.Output()
